@@ -131,5 +131,321 @@ def none_guard_contradictions(func, name) -> Optional[List[ast.AST]]:
     return uniq
 
 
+
+import builtins as _builtins
+
+from ..escape import EscapeAnalysis, BUILTIN_BASES
+from ..lexer import extract_lexer, extract_parser, find_sly_subclasses, SLY_ASSUMPTIONS
+from .common import construct_of, cls_construct, short
+
+PARSE = [
+    "jaqalpaq.parser.parser.parse_jaqal_string",
+    "jaqalpaq.parser.parser.parse_jaqal_file",
+    "jaqalpaq.parser.parser.parse_to_sexpression",
+    "jaqalpaq.parser.parser.parse_jaqal_string_header",
+    "jaqalpaq.parser.parser.parse_jaqal_file_header",
+]
+EXECUTE = [
+    "jaqalpaq.run.run.run_jaqal_circuit",
+    "jaqalpaq.run.run.run_jaqal_string",
+    "jaqalpaq.run.run.run_jaqal_file",
+    "jaqalpaq.core.result.parse_jaqal_output_list",
+]
+EXCLUDE = ("jaqalpaq.emulator.pygsti", "jaqalpaq.ipc", "jaqalpaq._cli", "jaqalpaq.qsyntax")
+JAQAL_ERROR = "jaqalpaq.error.JaqalError"
+
+# per-symbol exemptions for C16.1 (reason each)
+RAISE_EXEMPT = {
+    ("jaqalpaq.core.result.ProbabilisticSubcircuit.__init__", "RuntimeError"):
+        "numerical sanity guard on the probabilities: unreachable when the gate set's ideal unitaries are unitary (the gate set is configuration, not program text)",
+}
+
+
+def allowed(ea: EscapeAnalysis, cls: str) -> bool:
+    sup = ea.supers(cls)
+    return JAQAL_ERROR in sup or "ImportError" in [s.split(".")[-1] for s in sup]
+
+
 def run(ctx, rep):
-    raise AnalysisError("C16 rule set not built yet")
+    ix, T = ctx.ix, ctx.typer
+    for a in SLY_ASSUMPTIONS:
+        rep.assume(a)
+    rep.assume("only explicit raise statements and the listed implicit-exception idioms are modelled; arbitrary TypeError/KeyError from dynamically typed values and non-termination are not decided")
+    rep.assume("the backend is the default UnitarySerializedEmulator; a user-supplied backend or gate set is configuration, not program text")
+    entries = PARSE + EXECUTE
+    for q in entries:
+        ix.func(q)
+
+    # ------------------------------------------------------------ C16.1
+    rep.rule("C16.1", "every explicitly raised exception that can escape a parse/execute entry point is a JaqalError or an ImportError", floor=40)
+    ea = EscapeAnalysis(ix, T, exclude_modules=EXCLUDE).analyse(entries)
+    rep.analysed["reachable_functions"] = len(ea.reachable)
+    rep.analysed["entries"] = entries
+    by_site = {}
+    for e in entries:
+        for r in ea.escaping(e):
+            by_site.setdefault(r.key(), (r, []))[1].append(e)
+    n_raise = 0
+    for q in ea.reachable:
+        f = ix.functions[q]
+        for n in walk_no_nested(f.node):
+            if isinstance(n, ast.Raise):
+                n_raise += 1
+    rep.analysed["raise_statements_reachable"] = n_raise
+    reported = set()
+    for key, (r, ents) in sorted(by_site.items(), key=lambda kv: (kv[1][0].func.qualname, kv[1][0].cls)):
+        cons = construct_of(r.func, f"raise:{r.cls.split('.')[-1]}")
+        loc = f"{r.func.path}:{r.node.lineno}"
+        if cons in reported:
+            continue
+        reported.add(cons)
+        if allowed(ea, r.cls):
+            rep.ok("C16.1", cons, f"{r.cls.split('.')[-1]} is a JaqalError/ImportError", loc)
+        elif (r.func.qualname, r.cls.split(".")[-1]) in RAISE_EXEMPT:
+            rep.exempt("C16.1", cons, RAISE_EXEMPT[(r.func.qualname, r.cls.split(".")[-1])], loc)
+        else:
+            path = " -> ".join(short(p) for p in r.path)
+            rep.violation("C16.1", cons, f"{r.cls.split('.')[-1]} raised here escapes {', '.join(short(e).split('.')[-1] for e in ents[:3])} uncaught (path: {path}); only JaqalError and ImportError may escape", loc)
+    # raises that are reachable but caught everywhere are discharged too
+    for q in ea.reachable:
+        f = ix.functions[q]
+        for n in walk_no_nested(f.node):
+            if isinstance(n, ast.Raise) and n.exc is not None:
+                c = ea.resolve_exc(f, n.exc)
+                if c is None:
+                    continue
+                cons = construct_of(f, f"raise:{c.split('.')[-1]}")
+                if cons not in reported:
+                    reported.add(cons)
+                    rep.ok("C16.1", cons, "does not escape any entry point (caught on every call path) or is allowed", f"{f.path}:{n.lineno}")
+
+    # ------------------------------------------------------------ C16.2
+    rep.rule("C16.2", "every sly Lexer subclass overrides error() with a body that raises an allowed class", floor=1)
+    for c in find_sly_subclasses(ix, "Lexer"):
+        cons = cls_construct(ix, c.qualname, "error")
+        err = c.methods.get("error")
+        if err is None:
+            rep.violation("C16.2", cons, "the lexer defines no error(): sly's default raises sly.lex.LexError for an illegal character, which is not a JaqalError", c.loc(), witness="foo $")
+            continue
+        raises = [n for n in walk_no_nested(err.node) if isinstance(n, ast.Raise) and n.exc is not None]
+        from ..cfg import CFG
+
+        cfg = CFG(err.body)
+        if not raises or cfg.exit in cfg.reachable_from(cfg.entry):
+            rep.violation("C16.2", cons, "the lexer's error() can return: sly then skips nothing (index is not advanced) or continues silently", err.loc())
+            continue
+        bad = [n for n in raises if not allowed(ea, ea.resolve_exc(err, n.exc) or "?")]
+        if bad:
+            rep.violation("C16.2", cons, f"the lexer's error() raises {ast.unparse(bad[0].exc.func) if isinstance(bad[0].exc, ast.Call) else ast.unparse(bad[0].exc)}, which is not a JaqalError", f"{err.path}:{bad[0].lineno}")
+        else:
+            rep.ok("C16.2", cons, "error() always raises a JaqalError subclass", err.loc())
+
+    # ------------------------------------------------------------ C16.3
+    rep.rule("C16.3", "no dereference of a value after an `is None` test on it has been joined without exit", floor=1)
+    n_tests = 0
+    for q in ea.reachable:
+        f = ix.functions[q]
+        names = set()
+        for n in walk_no_nested(f.node):
+            if isinstance(n, ast.If):
+                t = n.test
+                if isinstance(t, ast.Compare) and len(t.ops) == 1 and isinstance(t.left, ast.Name) and isinstance(t.comparators[0], ast.Constant) and t.comparators[0].value is None and isinstance(t.ops[0], (ast.Is, ast.IsNot)):
+                    names.add(t.left.id)
+        for name in sorted(names):
+            bad = none_guard_contradictions(f, name)
+            if bad is None:
+                continue
+            n_tests += 1
+            cons = construct_of(f, f"none-guard:{name}")
+            if bad:
+                rep.violation("C16.3", cons, f"`{ast.unparse(bad[0])}` dereferences `{name}` after the branch where it is None has been joined: AttributeError/TypeError instead of a JaqalError", f"{f.path}:{bad[0].lineno}")
+            else:
+                rep.ok("C16.3", cons, "the None branch exits, rebinds the name, or every later dereference is guarded", f.loc())
+    rep.analysed["none_tests"] = n_tests
+
+    # ------------------------------------------------------------ C16.5
+    rep.rule("C16.5", "every name read in a reachable function is bound; dotted uses of a package have a matching import", floor=100)
+    builtin_names = set(dir(_builtins))
+    sub_reported = set()
+    for q in ea.reachable:
+        f = ix.functions[q]
+        m = ix.modules[f.module]
+        bound = set(f.all_params)
+        for n in ast.walk(f.node):
+            if isinstance(n, ast.Name) and isinstance(n.ctx, (ast.Store, ast.Del)):
+                bound.add(n.id)
+            elif isinstance(n, (ast.Import, ast.ImportFrom)):
+                for a in n.names:
+                    bound.add((a.asname or a.name).split(".")[0])
+            elif isinstance(n, (ast.FunctionDef, ast.AsyncFunctionDef, ast.ClassDef)):
+                bound.add(n.name)
+            elif isinstance(n, ast.ExceptHandler) and n.name:
+                bound.add(n.name)
+            elif isinstance(n, ast.arg):
+                bound.add(n.arg)
+        g = f
+        while g.parent:
+            g = ix.functions[g.parent]
+            bound |= set(g.all_params)
+            for n in ast.walk(g.node):
+                if isinstance(n, ast.Name) and isinstance(n.ctx, ast.Store):
+                    bound.add(n.id)
+                elif isinstance(n, (ast.Import, ast.ImportFrom)):
+                    for a in n.names:
+                        bound.add((a.asname or a.name).split(".")[0])
+                elif isinstance(n, (ast.FunctionDef, ast.ClassDef)):
+                    bound.add(n.name)
+        modbound = set(m.bindings)
+        for st in ast.walk(m.tree):
+            if isinstance(st, ast.Global):
+                modbound |= set(st.names)
+        star = bool(m.star_imports)
+        unbound = {}
+        body_nodes = []
+        for part in (f.node.body if not isinstance(f.node, ast.Lambda) else [f.node.body]):
+            body_nodes.extend(ast.walk(part))
+        for n in body_nodes:
+            if isinstance(n, ast.Name) and isinstance(n.ctx, ast.Load):
+                if n.id in bound or n.id in modbound or n.id in builtin_names:
+                    continue
+                if star and ix.resolve_in_module(m.name, n.id) is not None:
+                    continue
+                unbound.setdefault(n.id, n)
+        cons = construct_of(f, "names")
+        if unbound:
+            names_ = sorted(unbound)
+            n = unbound[names_[0]]
+            rep.violation("C16.5", construct_of(f, f"unbound:{','.join(names_)}"), f"the name(s) {', '.join('`'+x+'`' for x in names_)} are read but never bound in this function, its module or the builtins: NameError when this line runs", f"{f.path}:{n.lineno}")
+        else:
+            rep.ok("C16.5", cons, "all names bound", f.loc())
+        # dotted use of a package attribute that is a submodule
+        imported_plain = {}
+        for st in ast.walk(m.tree):
+            if isinstance(st, ast.Import):
+                for a in st.names:
+                    imported_plain.setdefault(a.name.split(".")[0], set()).add(a.name)
+            elif isinstance(st, ast.ImportFrom) and st.level == 0 and st.module:
+                for a in st.names:
+                    imported_plain.setdefault(st.module.split(".")[0], set()).add(f"{st.module}.{a.name}")
+        for n in ast.walk(f.node):
+            if isinstance(n, ast.Attribute) and isinstance(n.value, ast.Attribute) and isinstance(n.value.value, ast.Name):
+                pkg, sub = n.value.value.id, n.value.attr
+                if pkg in imported_plain and (pkg, sub) in KNOWN_SUBMODULES and pkg not in bound:
+                    full = f"{pkg}.{sub}"
+                    if not any(x == full or x.startswith(full + ".") for x in imported_plain[pkg]) and (f.module, full) not in sub_reported:
+                        sub_reported.add((f.module, full))
+                        rep.violation("C16.5", f"{short(f.module)}:submodule:{full}", f"`{full}.{n.attr}` is used but the module only does `import {pkg}`: `{full}` is a submodule that is not imported here (AttributeError unless something else happened to import it)", f"{f.path}:{n.lineno}")
+
+    # ------------------------------------------------------------ C16.7
+    rep.rule("C16.7", "parse errors carry a position derived from the offending statement", floor=3)
+    pm = extract_parser(ix)
+    pcls = pm.cls
+    from .c02 import never_returning_methods, _never_returns
+
+    noret = never_returning_methods(ix, pcls)
+    setters = {"set_pos"}
+    raisers = {"raise_error"}
+    by_lhs = {}
+    for p in pm.productions:
+        by_lhs.setdefault(p.lhs, []).append(p)
+
+    def calls(fi, names):
+        return any(isinstance(n, ast.Call) and isinstance(n.func, ast.Attribute) and n.func.attr in names and isinstance(n.func.value, ast.Name) and n.func.value.id == fi.params[0] for n in walk_no_nested(fi.node))
+
+    def sets_pos(lhs, depth=0, seen=None):
+        """Every alternative of lhs records a position (itself or through its first nonterminal)."""
+        seen = seen or set()
+        if lhs in seen or depth > 6:
+            return False
+        seen = seen | {lhs}
+        alts = by_lhs.get(lhs, [])
+        if not alts:
+            return False
+        for p in alts:
+            if calls(p.func, setters):
+                continue
+            nts = [s for s in p.rhs if s in by_lhs]
+            if nts and sets_pos(nts[0], depth + 1, seen):
+                continue
+            return False
+        return True
+
+    done = set()
+    for p in pm.productions:
+        if not calls(p.func, raisers) or p.func.qualname in done:
+            continue
+        done.add(p.func.qualname)
+        cons = construct_of(p.func, "error-position")
+        own = calls(p.func, setters)
+        alts = [x for x in pm.productions if x.func.qualname == p.func.qualname]
+        alts = [x for x in alts if not all(_never_returns(y.func, noret) for s in x.rhs if s in by_lhs for y in by_lhs[s])] or alts
+        via = all(any(s in by_lhs and sets_pos(s) for s in x.rhs) for x in alts)
+        if own or via:
+            rep.ok("C16.7", cons, "a position is recorded before raise_error", p.func.loc())
+        else:
+            missing = [s for x in alts for s in x.rhs if s in by_lhs and not sets_pos(s)]
+            rep.violation("C16.7", cons, f"raise_error() is called but no set_pos() precedes it (neither here nor in {sorted(set(missing)) or 'any right-hand-side action'}): the JaqalParseError carries the position of whatever statement last recorded one", p.func.loc())
+    # JaqalParseError constructions pass a non-constant line
+    for name, lst in pcls.methods_all.items():
+        for fi in lst:
+            for n in walk_no_nested(fi.node):
+                if isinstance(n, ast.Call) and isinstance(n.func, ast.Name) and n.func.id == "JaqalParseError":
+                    cons = construct_of(fi, "JaqalParseError:line")
+                    if len(n.args) >= 3 and not isinstance(n.args[1], ast.Constant):
+                        rep.ok("C16.7", cons, "line/column arguments are computed", f"{fi.path}:{n.lineno}")
+                    else:
+                        rep.violation("C16.7", cons, "JaqalParseError is constructed with a constant position", f"{fi.path}:{n.lineno}")
+
+    # ------------------------------------------------------------ C16.8
+    rep.rule("C16.8", "no history-dependence anti-patterns (mutable default mutated; __init__ as class/static method; module-level container mutated by a reachable function)", floor=1)
+    n_checked = 0
+    for f in ix.functions.values():
+        if f.module.startswith(("jaqalpaq._cli",)):
+            continue
+        if f.name == "__init__" and f.cls and (f.is_classmethod or f.is_staticmethod):
+            rep.violation("C16.8", construct_of(f, "init-decorated"), "__init__ is decorated @classmethod/@staticmethod: `self` is the class, so instance state becomes class state shared by every instance (the last constructed object wins)", f.loc())
+        a = f.node.args if not isinstance(f.node, ast.Lambda) else None
+        if a is None:
+            continue
+        pos = a.posonlyargs + a.args
+        defaults = list(zip(pos[len(pos) - len(a.defaults):], a.defaults)) + [(x, d) for x, d in zip(a.kwonlyargs, a.kw_defaults) if d is not None]
+        for arg, d in defaults:
+            if isinstance(d, (ast.List, ast.Dict, ast.Set)) or (isinstance(d, ast.Call) and isinstance(d.func, ast.Name) and d.func.id in ("list", "dict", "set", "deque", "defaultdict")):
+                n_checked += 1
+                mutated = any(
+                    (isinstance(n, ast.Call) and isinstance(n.func, ast.Attribute) and isinstance(n.func.value, ast.Name) and n.func.value.id == arg.arg and n.func.attr in ("append", "extend", "update", "add", "pop", "clear", "insert", "setdefault", "remove"))
+                    or (isinstance(n, (ast.Subscript,)) and isinstance(n.ctx, (ast.Store, ast.Del)) and isinstance(n.value, ast.Name) and n.value.id == arg.arg)
+                    for n in walk_no_nested(f.node)
+                )
+                cons = construct_of(f, f"mutable-default:{arg.arg}")
+                if mutated:
+                    rep.violation("C16.8", cons, f"the mutable default of `{arg.arg}` is mutated: state leaks from one call to the next", f.loc())
+                else:
+                    rep.ok("C16.8", cons, "mutable default is not mutated", f.loc())
+    # module-level containers mutated from reachable functions
+    for q in ea.reachable:
+        f = ix.functions[q]
+        m = ix.modules[f.module]
+        containers = set()
+        for st in m.tree.body:
+            if isinstance(st, ast.Assign) and isinstance(st.value, (ast.List, ast.Dict, ast.Set)):
+                for t in st.targets:
+                    if isinstance(t, ast.Name):
+                        containers.add(t.id)
+        local = set(f.all_params) | {n.id for n in ast.walk(f.node) if isinstance(n, ast.Name) and isinstance(n.ctx, ast.Store)}
+        for n in walk_no_nested(f.node):
+            tgt = None
+            if isinstance(n, ast.Call) and isinstance(n.func, ast.Attribute) and isinstance(n.func.value, ast.Name) and n.func.attr in ("append", "extend", "update", "add", "pop", "clear", "insert", "setdefault", "remove"):
+                tgt = n.func.value.id
+            elif isinstance(n, ast.Subscript) and isinstance(n.ctx, (ast.Store, ast.Del)) and isinstance(n.value, ast.Name):
+                tgt = n.value.id
+            if tgt and tgt in containers and tgt not in local:
+                rep.violation("C16.8", construct_of(f, f"module-state:{tgt}"), f"the module-level container `{tgt}` is mutated by a function reachable from the entry points: later calls see what earlier calls left behind", f"{f.path}:{n.lineno}")
+    rep.ok("C16.8", "package:init-decorators", f"checked {sum(1 for f in ix.functions.values() if f.name == '__init__')} __init__ methods and {n_checked} mutable defaults")
+
+
+KNOWN_SUBMODULES = {
+    ("importlib", "util"), ("importlib", "machinery"), ("importlib", "abc"), ("importlib", "resources"),
+    ("os", "path"), ("xml", "etree"), ("concurrent", "futures"), ("urllib", "parse"), ("urllib", "request"),
+    ("logging", "handlers"), ("email", "utils"), ("collections", "abc"), ("unittest", "mock"), ("sly", "yacc"), ("sly", "lex"),
+}
